@@ -1079,6 +1079,18 @@ def get_idx(seq, idx):
     return ('idx', seq, idx)
 
 
+def _len_preserving(idx, val):
+    if idx[0] != 'slice':
+        return True
+    if idx[3] not in (NONE, C(1)) or val[0] not in ('list', 'tuple') or any(x[0] == 'star' for x in val[1]):
+        return False
+    lo = C(0) if idx[1] == NONE else idx[1]
+    if idx[2] == NONE:
+        return False
+    d_ = mk_bin('+', idx[2], mk_neg(lo), Opts(plus_commutes=True))
+    return d_ == C(len(val[1])) and not (is_int(lo) and lo[1] < 0) and not (is_int(idx[2]) and idx[2][1] < 0)
+
+
 def set_idx(seq, idx, val):
     tag = seq[0]
     if idx[0] == 'slice' and idx[3] == NONE and val[0] in ('tuple', 'list') and 1 <= len(val[1]) <= 8 and tag != 'list':
@@ -1115,6 +1127,8 @@ def set_idx(seq, idx, val):
     # replace same index if everything after it is distinct
     for k in range(len(entries) - 1, -1, -1):
         ei, ev = entries[k]
+        if not _len_preserving(ei, ev) or not _len_preserving(idx, val):
+            break            # a slice store that may change the length shifts what the other indices mean
         if ei == idx:
             entries[k] = (idx, val)
             return ('upd', base, tuple(entries))
@@ -1780,6 +1794,9 @@ class PE:
                         nm_ = ast.Name(id=v_, ctx=ast.Load())
                         cur_ = self.ev(nm_, env)
                         self.store(nm_, ('mut', 'closure:' + fnode.id, cur_, self._args_sans(cur_, tuple(args) + tuple(kw))), env, True)
+            for a_ in n.args:
+                if isinstance(a_, ast.Name) and a_.id in env and self._is_iterator(env[a_.id]) and g_ != ('b', 'next'):
+                    self.store(a_, ('mut', 'consumed', env[a_.id], ()), env, True)      # list(g), sum(g), f(g): g is used up
             if g_ == ('b', 'next') and n.args and self.is_place(n.args[0]):
                 cur_ = self.ev(n.args[0], env)
                 self.store(n.args[0], ('mut', 'next', cur_, ()), env, True)
@@ -1801,6 +1818,12 @@ class PE:
         if not any(x is cur or x == cur for a in args for x in walk(a)):
             return args
         return substitute(args, {cur: ('recv',)}, self.opts)
+
+    @staticmethod
+    def _is_iterator(t):
+        while t[0] == 'mut' and t[1] in ('next', 'consumed'):
+            t = t[2]
+        return t[0] == 'genexp' or (t[0] == 'call' and t[1] == ('b', 'iter'))
 
     def _is_module_name(self, n, env):
         """struct.pack / operator.xor / self.__class__: the `receiver` is a module or class, not an object with state"""
@@ -2357,6 +2380,11 @@ class PE:
                     effects.append(('del', ('name', t.id)))
                 else:
                     effects.append(('del', self.ev(t, env)))
+                    if isinstance(t, (ast.Subscript, ast.Attribute)) and self.is_place(t.value):
+                        # the container / object no longer has that item: later reads see a different object term
+                        cur_ = self.ev(t.value, env)
+                        what_ = self.ev(t.slice, env) if isinstance(t, ast.Subscript) else C(t.attr)
+                        self.store(t.value, ('mut', 'del', cur_, (what_,)), env, True)
             return False
         if isinstance(s, ast.If):
             return self.exec_if(s, env, effects, rest)
@@ -2669,6 +2697,14 @@ class PE:
 
     def exec_for(self, s, env, effects):
         it = self.ev(s.iter, env)
+        if isinstance(s.iter, ast.Name) and s.iter.id in env and self._is_iterator(env[s.iter.id]):
+            r_ = self._exec_for(s, env, effects, it)
+            if s.iter.id in env:
+                self.store(s.iter, ('mut', 'consumed', env[s.iter.id], ()), env, True)      # the loop used the named iterator up
+            return r_
+        return self._exec_for(s, env, effects, it)
+
+    def _exec_for(self, s, env, effects, it):
         if it[0] == 'call' and it[1] == ('b', 'iter') and len(it[2]) == 1 and not it[3] and isinstance(s.iter, ast.Call) \
                 and canon_seq(it[2][0], self.opts) is not None:
             it = it[2][0]            # for x in iter(seq): the iterator is not named, the loop is its only consumer
@@ -2846,7 +2882,7 @@ class PE:
                 n_it = None
                 try:
                     n_it = C(len(to_py(it)))
-                except NotConcrete:
+                except (NotConcrete, TypeError):
                     n_it = ('call', ('b', 'len'), (it,), ())
                 if any(isinstance(n_, ast.Break) for st_ in s.body for n_ in ast.walk(st_)):
                     n_it = ('done', L, 'num')        # a loop that may break: the iterations actually completed
